@@ -9,6 +9,7 @@ import (
 	"runtime"
 	"sort"
 	"strings"
+	"sync"
 	"time"
 
 	"github.com/blugelabs/bluge"
@@ -308,6 +309,10 @@ func c18Child(in json.RawMessage) (interface{}, error) {
 			out.Findings = append(out.Findings, c18Finding{Key: key, What: what, Input: append([]byte(nil), input...), Class: class})
 		}
 	}
+	if job.Kind == "shared" {
+		c18Shared(job, out, add)
+		return out, nil
+	}
 	start, n := 0, job.N
 	if job.Sweep {
 		start, n = job.Lo, job.Hi
@@ -519,6 +524,99 @@ func c18RoundTrip(a *analysis.Analyzer, text []byte) string {
 	return ""
 }
 
+// c18Shared: ONE analyzer instance used the way a Writer uses it - several documents of one batch are
+// analysed by several goroutines at once. The tokens must be the ones a fresh instance gives for the same
+// text one at a time, and a batch of documents indexed through a real writer must each be found by a
+// match query over their own text.
+func c18Shared(job c18Job, out *c18Out, add func(key, what string, input []byte, class string)) {
+	mk := c18Analyzers[job.Name]
+	r := rand.New(rand.NewSource(job.Seed))
+	const nIn = 48
+	var inputs [][]byte
+	var classes []string
+	var ref []analysis.TokenStream
+	for i := 0; i < nIn; i++ {
+		class := []string{"cjk", "cjk", "latin", "arabic", "cyrillic", "devanagari", "mixed", "sorani", "persian"}[r.Intn(9)]
+		in := c18GenInput(r, class)
+		inputs = append(inputs, in)
+		classes = append(classes, class)
+		ref = append(ref, mk().Analyze(append([]byte(nil), in...)))
+		out.Inputs++
+	}
+	shared := mk()
+	var mu sync.Mutex
+	var wg sync.WaitGroup
+	for g := 0; g < 4; g++ {
+		wg.Add(1)
+		go func(g int) {
+			defer wg.Done()
+			for pass := 0; pass < 3; pass++ {
+				for k := 0; k < nIn; k++ {
+					i := (k*7 + g*11 + pass) % nIn
+					func() {
+						defer func() {
+							if rec := recover(); rec != nil {
+								mu.Lock()
+								add("analyzer-panic-under-concurrent-use:"+job.Name, fmt.Sprintf("analyzer %s (one instance, 4 goroutines) panicked on %q: %v\n%s", job.Name, inputs[i], rec, firstLines(stackString(), 12)), inputs[i], classes[i])
+								mu.Unlock()
+							}
+						}()
+						got := shared.Analyze(append([]byte(nil), inputs[i]...))
+						if !tokensEqual(got, ref[i]) {
+							mu.Lock()
+							add("analysis-differs-under-concurrent-use:"+job.Name, fmt.Sprintf("analyzer %s: one instance used by 4 goroutines gave %d tokens for %q, a fresh instance used alone gives %d (or their offsets / terms differ)", job.Name, len(got), inputs[i], len(ref[i])), inputs[i], classes[i])
+							mu.Unlock()
+						}
+					}()
+				}
+			}
+		}(g)
+	}
+	wg.Wait()
+	// the same through a real writer: one batch, the writer's analysis workers share the instance
+	w, err := bluge.OpenWriter(bx.NoMerge(bluge.InMemoryOnlyConfig()))
+	if err != nil {
+		return
+	}
+	defer w.Close()
+	b := bluge.NewBatch()
+	for i, in := range inputs {
+		d := bluge.NewDocument(fmt.Sprintf("d%02d", i)).AddField(bluge.NewTextFieldBytes("t", append([]byte(nil), in...)).WithAnalyzer(shared))
+		b.Update(d.ID(), d)
+	}
+	if err := w.Batch(b); err != nil {
+		add("batch-of-documents-fails:"+job.Name, err.Error(), nil, "")
+		return
+	}
+	rd, err := w.Reader()
+	if err != nil {
+		return
+	}
+	defer rd.Close()
+	for i, in := range inputs {
+		if len(ref[i]) == 0 {
+			continue
+		}
+		out.Searches++
+		q := bluge.NewMatchQuery(string(in)).SetField("t").SetAnalyzer(mk()).SetOperator(bluge.MatchQueryOperatorAnd)
+		hits, _, err := bx.SafeCollect(rd, bluge.NewAllMatches(q), false)
+		if err != nil {
+			continue
+		}
+		found := false
+		for _, h := range hits {
+			if h.ID == fmt.Sprintf("d%02d", i) {
+				found = true
+			}
+		}
+		if !found {
+			add("document-of-a-batch-not-found-by-its-own-text:"+job.Name, fmt.Sprintf("analyzer %s: %d documents indexed in ONE batch; a match query (all terms) over the text of document %d (%q) does not find it", job.Name, nIn, i, in), in, classes[i])
+		}
+	}
+	out.Tokens += nIn
+	out.Classes["shared-instance"]++
+}
+
 func runC18(c *vk.Ctx) {
 	c.Rule("script-aware generators (Latin, Arabic, Persian, Cyrillic, Devanagari, CJK incl. half/full width, Sorani, emoji / joiners / control characters, raw bytes, truncated runes, mixtures) fed to all 24 bundled analyzers, 8 tokenizers, ~75 token filter configurations (n-gram, edge n-gram, shingle, truncate, length grids; stemmers, normalisers, elision, compound, bigram, width ...) with synthetic token streams (whole input, pieces, empty and one-rune tokens) and 5 char filters, in child processes with a progress watchdog; plus an enumerated sweep through every analyzer / tokenizer / filter of all (rune, mark) and (mark, rune) pairs for the runes of nine script blocks (Latin-1 sup./ext., Greek, Cyrillic, Arabic, Devanagari, Hangul Jamo, CJK symbols + kana, CJK compatibility, half/full-width forms) x 22 combining / voiced / joiner / width marks; " +
 		"oracle: no panic, two runs agree, PositionIncr >= 0, 0 <= start <= end <= length of what the tokenizer saw, tokenizer term = input slice, and (every 4th input with tokens) a one-document index finds the document by a match query requiring all terms of its own text. distinct non-trivial = distinct (component, input class) that produced at least one token")
@@ -554,6 +652,11 @@ func runC18(c *vk.Ctx) {
 	}
 	for name := range c18Analyzers {
 		addJobs("analyzer", name, "an", per, true)
+		// one instance shared by goroutines and by the analysis workers of a real batch
+		for k := 0; k < c.Pick(2, 40); k++ {
+			cases = append(cases, c18Job{Kind: "shared", Name: name, Seed: vk.SubSeed(c.Seed, fmt.Sprintf("shared-%s-%d", name, k))})
+			names = append(names, "analyzer:"+name)
+		}
 	}
 	for name := range c18Tokenizers() {
 		addJobs("tokenizer", name, "tk", per, false)
